@@ -9,7 +9,7 @@ VERIF = os.path.dirname(os.path.dirname(os.path.abspath(__file__)))
 REPO = os.environ.get('VP_REPO', '/repo')
 BUILD = os.path.join(VERIF, 'build')
 CLANG_FLAGS = ['-std=c++17', '-O1', '-g', '-fno-inline', '-fno-exceptions', '-fno-rtti', '-fno-access-control',
-               '-fno-vectorize', '-fno-slp-vectorize', '-fno-unroll-loops', '-ffp-contract=off',
+               '-fno-vectorize', '-fno-slp-vectorize', '-fno-unroll-loops', '-ffp-contract=off', '-fno-pic', '-fno-pie',
                '-Wno-everything', '-DHAVE_CONFIG_H', '-DVP_SYMBOLIC',
                '-I' + os.path.join(VERIF, 'cfg'), '-I' + os.path.join(REPO, 'src'), '-I' + os.path.join(VERIF, 'vp'),
                '-I' + os.path.join(VERIF, 'harness')]
@@ -76,7 +76,7 @@ class Job:
 
     def __init__(self, prop, name, src, defs=None, link=(), models=(), opt='inline', unwind=2, unwindset=None,
                  solver='minisat', timeout=300, shape='K', extra=(), bounds='', nochk=False, objbits=None,
-                 depth=None, stubs=None, skip_ctors=()):
+                 depth=None, stubs=None, skip_ctors=(), noop_stubs=()):
         self.prop, self.name, self.src = prop, name, src
         self.defs = dict(defs or {})
         self.link = list(link)
@@ -91,6 +91,10 @@ class Job:
         self.stubs = list(DEFAULT_STUBS if stubs is None else stubs)
         self.stubbed = []
         self.skip_ctors = list(skip_ctors)
+        # functions of the code under test replaced by an empty body in the SYMBOLIC build only (stated per harness as outside
+        # the claim; the harness must make their native effects unobservable)
+        self.noop_stubs = list(noop_stubs)
+        self.stubs += self.noop_stubs
         self.dir = os.path.join(BUILD, prop, name)
         self.log = []
 
@@ -170,7 +174,14 @@ class Job:
 
     def model_files(self):
         base = ['rt_cbmc', 'cxxabi', 'vecgrow'] + self.models
-        return [os.path.join(VERIF, 'models', m + '.c') for m in dict.fromkeys(base)]
+        files = [os.path.join(VERIF, 'models', m + '.c') for m in dict.fromkeys(base)]
+        if self.noop_stubs:
+            p = os.path.join(self.dir, 'noop_stubs.c')
+            with open(p, 'w') as f:
+                for n in self.noop_stubs:
+                    f.write('void vpx_%s(void* a) { (void)a; }\n' % n)
+            files.append(p)
+        return files
 
     def resolve_loops(self):
         """unwindset keys may be CBMC loop ids (f.0) or patterns 'substring' / 'substring@line' matched against the
@@ -193,14 +204,14 @@ class Job:
             if not hit:
                 self.log.append('unwindset pattern %s matched no loop' % pat)
 
-    def cbmc_cmd(self, witness=False, trace=True):
+    def cbmc_cmd(self, witness=False, trace=True, solver=None):
         cmd = ['cbmc', '-I', os.path.join(VERIF, 'vp'), '-I', self.dir, '-I', os.path.join(VERIF, 'models'),
                os.path.join(self.dir, 'h.c')] + self.model_files()
         cmd += [c if c != '12' or not self.objbits else str(self.objbits) for c in CBMC_BASE]
         cmd += ['--unwind', str(self.unwind)]
         if getattr(self, 'loops_resolved', None):
             cmd += ['--unwindset', ','.join('%s:%d' % kv for kv in sorted(self.loops_resolved.items()))]
-        cmd += SOLVERS[self.solver]
+        cmd += SOLVERS[solver or (self.solver if isinstance(self.solver, str) else self.solver[0])]
         cmd += self.extra
         if witness:
             cmd += ['-DVP_WITNESS', '--no-standard-checks']
@@ -212,18 +223,68 @@ class Job:
 
     # ---------------------------------------------------------------- run cbmc and parse
     def run_cbmc(self, witness=False, timeout=None):
-        cmd = self.cbmc_cmd(witness=witness)
-        wrapped = ['/usr/bin/time', '-f', 'VP_RSS_KB=%M', 'bash', '-c',
-                   'ulimit -v %d; exec "$@"' % (40 * 1024 * 1024), 'x'] + cmd
-        rc, out, err, dt = run(wrapped, cwd=self.dir, timeout=timeout or self.timeout)
+        """solver may be a name or a tuple of names (portfolio: all started in parallel, the first verdict wins)"""
+        solvers = self.solver if isinstance(self.solver, (list, tuple)) else [self.solver]
+        timeout = timeout or self.timeout
+        procs = []
+        t0 = time.time()
+        for sv in solvers:
+            cmd = self.cbmc_cmd(witness=witness, solver=sv)
+            wrapped = ['/usr/bin/time', '-f', 'VP_RSS_KB=%M', 'bash', '-c',
+                       'ulimit -v %d; exec "$@"' % (40 * 1024 * 1024), 'x'] + cmd
+            tag = '%s_%s' % ('w' if witness else 'm', sv)
+            fo = open(os.path.join(self.dir, 'cbmc_%s.out' % tag), 'wb')
+            fe = open(os.path.join(self.dir, 'cbmc_%s.err' % tag), 'wb')
+            p = subprocess.Popen(wrapped, cwd=self.dir, stdout=fo, stderr=fe, start_new_session=True)
+            procs.append((sv, cmd, p, fo, fe, tag))
+        winner = None
+        results = {}
+        while time.time() - t0 < timeout and winner is None:
+            alive = False
+            for sv, cmd, p, fo, fe, tag in procs:
+                if sv in results:
+                    continue
+                rc = p.poll()
+                if rc is None:
+                    alive = True
+                    continue
+                fo.close(); fe.close()
+                out = open(os.path.join(self.dir, 'cbmc_%s.out' % tag), 'rb').read().decode('utf-8', 'replace')
+                err = open(os.path.join(self.dir, 'cbmc_%s.err' % tag), 'rb').read().decode('utf-8', 'replace')
+                res = self._parse(cmd, rc, out, err, time.time() - t0)
+                res['solver'] = sv
+                results[sv] = res
+                if res['status'] in ('SUCCESS', 'FAILURE'):
+                    winner = res
+                    break
+            if winner is None and not alive:
+                break
+            if winner is None:
+                time.sleep(0.2)
+        for sv, cmd, p, fo, fe, tag in procs:
+            if p.poll() is None:
+                try:
+                    os.killpg(p.pid, 9)
+                except Exception:
+                    pass
+                p.wait()
+            try:
+                fo.close(); fe.close()
+            except Exception:
+                pass
+        if winner is not None:
+            return winner
+        if results:
+            return list(results.values())[0]
+        return {'cmd': ' '.join(procs[0][1]), 'wall_s': round(time.time() - t0, 2), 'rc': -999, 'status': 'TIMEOUT', 'props': [],
+                'steps': 0, 'vccs': 0, 'vccs_remaining': 0, 'rss_kb': 0, 'messages': [], 'solver': ','.join(solvers)}
+
+    def _parse(self, cmd, rc, out, err, dt):
         res = {'cmd': ' '.join(cmd), 'wall_s': round(dt, 2), 'rc': rc, 'status': None, 'props': [], 'steps': 0,
                'vccs': 0, 'vccs_remaining': 0, 'rss_kb': 0, 'messages': []}
         m = re.search(r'VP_RSS_KB=(\d+)', err)
         if m:
             res['rss_kb'] = int(m.group(1))
-        if rc == -999:
-            res['status'] = 'TIMEOUT'
-            return res
         try:
             js = json.loads(out)
         except Exception:
